@@ -22,6 +22,7 @@ import (
 //	R-loop-capture      (shared with C05)
 //	R-unguarded also covers long-lived objects without any lock: written only by construction code
 //	R-params-copied     (shared with C05)
+//	R-writer-joined     goroutines handed a handler's ResponseWriter are joined before the handler returns
 //	R-guarded-value     every use of a map loaded from a member that is updated in place under a lock holds that lock,
 //	                    also after the value was returned, passed on or captured
 //	R-exception         publish-by-close idiom recognised by shape
@@ -192,6 +193,7 @@ func checkC20(c *Ctx) {
 	c05LoopCapture(c, "R-loop-capture")
 	c20GuardedValue(c, guards)
 	c20LongLivedPlain(c, accs)
+	c20WriterJoined(c)
 	// a message that keeps the caller's map is marshalled later by another goroutine while the caller may reuse the map
 	c05ParamsCopied(c, "R-params-copied")
 }
@@ -534,5 +536,112 @@ func c20LongLivedPlain(c *Ctx, accs []Access) {
 	}
 	if bad == 0 {
 		c.R.Hold("R-unguarded", "long-lived objects without a lock are not written after construction", "", sprintf("%d post-construction writes examined, all under a mutex", n))
+	}
+}
+
+// c20WriterJoined (R-writer-joined): an http.ResponseWriter belongs to its handler invocation; net/http finishes and
+// recycles it as soon as the handler returns. A goroutine that a handler starts and hands its ResponseWriter (or the
+// Flusher asserted from it) must therefore have stopped before the handler returns: on every path from the `go`
+// statement to the handler's exit there is a (*sync.WaitGroup).Wait. Otherwise the goroutine's last write or flush
+// races with net/http's finishRequest (and may panic after the connection was hijacked back).
+func c20WriterJoined(c *Ctx) {
+	n := 0
+	for _, fn := range c.P.LibFns {
+		if clientSide(c, fn) {
+			continue
+		}
+		var w *ssa.Parameter
+		for _, p := range fn.Params {
+			if isResponseWriter(p.Type()) {
+				w = p
+			}
+		}
+		if w == nil {
+			continue
+		}
+		derived := map[ssa.Value]bool{w: true}
+		for changed := true; changed; {
+			changed = false
+			ir.EachInstr(fn, func(_ *ssa.BasicBlock, _ int, in ssa.Instruction) {
+				switch x := in.(type) {
+				case *ssa.TypeAssert:
+					if derived[x.X] && !derived[x] {
+						derived[x] = true
+						changed = true
+					}
+				case *ssa.Extract:
+					if derived[x.Tuple] && x.Index == 0 && !derived[x] {
+						derived[x] = true
+						changed = true
+					}
+				case *ssa.MakeInterface:
+					if derived[x.X] && !derived[x] {
+						derived[x] = true
+						changed = true
+					}
+				case *ssa.ChangeInterface:
+					if derived[x.X] && !derived[x] {
+						derived[x] = true
+						changed = true
+					}
+				}
+			})
+		}
+		isWait := func(in ssa.Instruction) bool {
+			call, ok := in.(ssa.CallInstruction)
+			if !ok {
+				return false
+			}
+			if _, isDefer := in.(*ssa.Defer); isDefer {
+				return false
+			}
+			return ir.CallName(call) == "(*sync.WaitGroup).Wait"
+		}
+		cnt := 0
+		ir.EachInstr(fn, func(_ *ssa.BasicBlock, _ int, in ssa.Instruction) {
+			g, ok := in.(*ssa.Go)
+			if !ok {
+				return
+			}
+			uses := false
+			for _, a := range g.Call.Args {
+				if derived[a] {
+					uses = true
+				}
+			}
+			if mc, ok := g.Call.Value.(*ssa.MakeClosure); ok {
+				for _, b := range mc.Bindings {
+					if derived[b] {
+						uses = true
+					}
+					// captured by reference: the cell holds w
+					if al, ok := b.(*ssa.Alloc); ok {
+						for _, r := range *al.Referrers() {
+							if st, ok := r.(*ssa.Store); ok && derived[st.Val] {
+								uses = true
+							}
+						}
+					}
+				}
+			}
+			if !uses {
+				return
+			}
+			n++
+			cnt++
+			esc := flow.ExitsAvoiding(fn, g, isWait, false)
+			// a `defer wg.Wait()` registered before the goroutine starts runs at every exit
+			ir.EachInstr(fn, func(_ *ssa.BasicBlock, _ int, d ssa.Instruction) {
+				if df, ok := d.(*ssa.Defer); ok && ir.CallName(df) == "(*sync.WaitGroup).Wait" && flow.Dominates(df, g) {
+					esc = nil
+				}
+			})
+			c.R.Check(esc == nil, "R-writer-joined", sprintf("goroutine #%d started by %s with its ResponseWriter", cnt, fname(fn)), c.Pos(g.Pos()),
+				"joined (WaitGroup.Wait) on every path before the handler returns",
+				sprintf("%s starts a goroutine that writes to the handler's http.ResponseWriter and can return (near %s) without waiting for it: the goroutine's last write or flush then runs concurrently with net/http finishing and recycling the response — a data race on the connection's buffers", fname(fn), iposEsc(c, esc)))
+		})
+	}
+	if n == 0 {
+		c.R.Hold("R-writer-joined", "no handler hands its ResponseWriter to a goroutine", "", "")
 	}
 }
